@@ -195,7 +195,7 @@ def run(ctx, model=None):
     ctx.extra["rule"] = RULE
     rng = random.Random(ctx.seed * 694847539 + 12)
     P = pool(rng, ctx.quick())
-    N = 40 if ctx.quick() else 4000
+    N = 40 if ctx.quick() else 12000
     for it in range(N):
         k = rng.randint(1, 6)
         pick = [rng.choice(P) for _ in range(k)]
